@@ -1,6 +1,7 @@
 From Coq Require Extraction ExtrOcamlBasic.
-From Verif Require Import Base.Str Gen.GenWorkLog Model.WorkLog.
+From Verif Require Import Base.Str Gen.GenWorkLog Model.WorkLog Gen.GenCheckpoint Model.InitialAnchor.
 Extraction Language OCaml.
 Extraction "Extract/m_worklog.ml"
   WorkLog.va_from_log WorkLog.va_from_log_gen WorkLog.spec_lookup WorkLog.prune
-  WorkLog.write_initial WorkLog.read_initial WorkLog.alookup.
+  WorkLog.write_initial WorkLog.read_initial WorkLog.alookup
+  InitialAnchor.first_checkpoint InitialAnchor.by_content.
